@@ -138,7 +138,7 @@ pub fn main(ctx: &Ctx) -> i32 {
         }
     }
     // random nested parameters
-    for _ in 0..ctx.tier.pick(20_000, 300_000) {
+    for _ in 0..ctx.tier.pick(20_000, 2_000_000) {
         let p = gen_value(&mut rng, 3);
         if p.is_null() {
             continue;
